@@ -29,6 +29,7 @@ type Contract struct {
 	AtCallDo  map[string][]GhostSet // ghost assignments right after a call to the named callee
 	LoopUse   map[int][]ast.Expr  // manual axiom instantiations at loop heads
 	AtCall    map[string][]Clause // proof hints: assertions right after a call to the named callee
+	Unreachable map[string]bool // covers the contract declares dead on purpose (a deliberately restricted case)
 }
 
 // GhostSet is `ghost = expr` performed after a call.
@@ -256,7 +257,7 @@ func parseContracts(path string, unit string) (map[string]*Contract, error) {
 			cur = nil
 			continue
 		}
-		if !active {
+		if !active || strings.HasPrefix(line, "//") {
 			continue
 		}
 		if i := strings.Index(line, " //"); i >= 0 { // trailing comment
@@ -434,6 +435,11 @@ func parseContracts(path string, unit string) (map[string]*Contract, error) {
 				label = fmt.Sprintf("hint_%s%d", fields[2], len(cur.AtCall[fields[2]])+1)
 			}
 			cur.AtCall[fields[2]] = append(cur.AtCall[fields[2]], Clause{Label: label, Expr: e, Text: rest})
+		case "unreachable":
+			if cur.Unreachable == nil {
+				cur.Unreachable = map[string]bool{}
+			}
+			cur.Unreachable[strings.TrimSpace(strings.TrimPrefix(line, "unreachable"))] = true
 		case "check":
 			cur.Overflow = true
 		case "may_panic":
